@@ -99,6 +99,39 @@ def run_case(base, rootkind, recursive, full, shape, kind, isdir, at_root, varia
     return problems
 
 
+def phantom():
+    """C03 known finding: a watched directory moved out of the tree keeps its kernel watch and its old path in the
+    map: a later change inside it is reported under a path that no longer exists in the watched scope"""
+    import select
+    from watchdog.observers.inotify_c import Inotify
+    b = tempfile.mkdtemp(prefix="c03p")
+    out = []
+    try:
+        root, outside = os.path.join(b, "root"), os.path.join(b, "out")
+        os.makedirs(os.path.join(root, "d"))
+        os.mkdir(outside)
+        ino = Inotify(root.encode(), recursive=True)
+
+        def drain():
+            evs = []
+            while True:
+                p = select.poll()
+                p.register(ino._inotify_fd, select.POLLIN)
+                if not p.poll(20):
+                    return evs
+                evs.extend(ino.read_events())
+        os.rename(os.path.join(root, "d"), os.path.join(outside, "d"))
+        drain()
+        open(os.path.join(outside, "d", "f"), "w").close()
+        ph = [e.src_path for e in drain() if e.is_create]
+        ino.close()
+        if ph:
+            out.append(f"after `mv root/d out/d`, `touch out/d/f` is reported as a creation of {ph[0]!r} (an entry that does not exist in the watched tree)")
+    finally:
+        shutil.rmtree(b, ignore_errors=True)
+    return out
+
+
 def main():
     base = tempfile.mkdtemp(prefix="c03b")
     try:
@@ -109,6 +142,13 @@ def main():
         os.makedirs(r + b"/e\xff/k")
         open(r + b"/e\xff/k/z", "w").close()
         open(r + b"/f\xff", "w").close()
+        if REPLAY is not None and REPLAY.get("kind") == "sub":
+            import c14_battery
+            pr = c14_battery.run_case(tuple((tuple(r), k) for r, k in REPLAY["tree"]), REPLAY["new"], REPLAY["old"], "rel", "str")
+            replay_result(bool(pr), pr[:2])
+        if REPLAY is not None and REPLAY.get("kind") == "phantom":
+            pr = phantom()
+            replay_result(bool(pr), pr[:2])
         if REPLAY is not None:
             c = REPLAY
             pr = run_case(base, c["rootkind"], c["recursive"], c["full"], c["shape"], c["kind"], c["isdir"], c["at_root"], c.get("variant", "bad"))
@@ -128,6 +168,21 @@ def main():
                     pr = run_case(base, rootkind, recursive, full, shape, kind, isdir, at_root, variant)
                     if pr:
                         bat.fail(f"{WHICH}.translation", pr[0], {"rootkind": rootkind, "recursive": recursive, "full": full, "shape": shape, "kind": kind, "isdir": isdir, "at_root": at_root, "variant": variant, "problems": pr[:2]}, "InotifyEmitter.queue_events")
+        if WHICH == "C03":
+            # the synthetic sub-events of the table are C14's generators: their collision trees are run here as well
+            import c14_battery
+            n = 0
+            for tree in c14_battery.trees(3)[::9]:
+                for new, old in (("a", "b"), ("b", "ab"), ("a", "")):
+                    n += 1
+                    bat.case(("sub-events", n))
+                    pr = c14_battery.run_case(tree, new, old, "rel", "str")
+                    if pr:
+                        bat.fail("C03.synthetic-sub-events", pr[0], {"kind": "sub", "tree": [[list(r), k] for r, k in tree], "new": new, "old": old}, "generate_sub_moved_events")
+            bat.case("phantom-after-move-out")
+            pr = phantom()
+            if pr:
+                bat.fail("C03.phantom-events-after-move-out", pr[0], {"kind": "phantom"}, "Inotify.read_events")
         bat.finish()
     finally:
         shutil.rmtree(base, ignore_errors=True)
